@@ -452,3 +452,49 @@ func TestRLockLostUpdate() {
 	<-done
 	verifrt.Assert(n == 0, "lost update under a read lock")
 }
+
+// TestMapRace: one goroutine ranges over a map while another writes to it
+// without any synchronisation: the engine must report the runtime's fatal
+// "concurrent map iteration and map write" (the selftest expects the violation).
+func TestMapRace() {
+	m := map[string]int{"a": 1, "b": 2, "c": 3}
+	done := make(chan struct{}, 2)
+	go func() {
+		n := 0
+		for _, v := range m {
+			n += v
+		}
+		done <- struct{}{}
+	}()
+	go func() {
+		m["d"] = 4
+		done <- struct{}{}
+	}()
+	<-done
+	<-done
+}
+
+// TestMapNoRace: the same under a mutex: no report.
+func TestMapNoRace() {
+	var mu sync.Mutex
+	m := map[string]int{"a": 1, "b": 2, "c": 3}
+	done := make(chan struct{}, 2)
+	go func() {
+		mu.Lock()
+		n := 0
+		for _, v := range m {
+			n += v
+		}
+		mu.Unlock()
+		done <- struct{}{}
+	}()
+	go func() {
+		mu.Lock()
+		m["d"] = 4
+		mu.Unlock()
+		done <- struct{}{}
+	}()
+	<-done
+	<-done
+	verifrt.Assert(len(m) == 4, "map")
+}
